@@ -328,6 +328,10 @@ func runC02(c *CaseCtx) *CaseResult {
 		cc.Dig = &DigProfile{Salt: uint64(r.Int63()), OrderRevealing: true}
 		cc.Prof.KeySpace = 300
 	}
+	if c.Case%6 == 2 {
+		// "any hash distribution": moderately colliding digests (the systematic collision matrix is C12)
+		cc.Dig = &DigProfile{Alpha: [4]uint64{uint64(20 + r.Intn(200)), uint64(2 + r.Intn(4)), 2, 0}, Salt: uint64(r.Int63())}
+	}
 	if c.Case%11 == 10 {
 		cc.Phases = scalePhases(cc.Ops, []Phase{PhaseGrow, {Name: "pop", Insert: 5, Set: 5, Remove: 5, Read: 5, Meta: 2, Pop: 6}, PhaseGrow, PhaseShrink}, []int{40, 10, 30, 20})
 	}
